@@ -31,4 +31,8 @@ SUBS.append(Sub("equal-size-scripts", run, kind="enum", enumerate=lambda tier: c
 SUBS.append(Sub("fill-level-scripts", run, kind="enum", enumerate=lambda tier: container.fill_level_cases(), shards=(8, 16),
                 rule="every table length 1..18, 20, 32 x fill levels {full-2, full-1, full} (all live blocks of distinct types: nine writable, seven undecodable) x 3 type orders x "
                      "scripts (add / set an absent type, replace / set / same-size-replace present ones, remove first then add); finite, enumerated", nontrivial_required=False))
+SUBS.append(Sub("foreign-image-scripts", run, kind="enum", enumerate=lambda tier: container.foreign_image_cases(), shards=(8, 16),
+                rule="well-formed files as other writers leave them (later unused slots carrying 0 / 64 / -1 / 2^31-1 / mixed values instead of the end of the data; blocks padded to "
+                     "64 bytes) x table lengths {4,6,14} x 0..2 live blocks x scripts with two or more adds (api, setters, across a reopen, after removes); finite, enumerated",
+                nontrivial_required=False))
 TIME_BUDGET = {"quick": 150, "thorough": 1500}
